@@ -373,6 +373,22 @@ def frozendict_contract(rep):
                     where='two frozen dictionaries with the same item set (== by dict.__eq__, whatever the insertion order) store the same hash',
                     **({} if r.status != 'refuted' else _frozendict_replay()))
     if not n: rep.error('C17.frozendict: no feasible pair of paths (vacuous)')
+    # frame condition: the hash is computed ONCE; it stays valid only if no inherited dict operation can change the items afterwards.
+    # Mutators = what collections.abc.MutableMapping adds to Mapping, plus dict's in-place operators (names read from the real classes).
+    import collections.abc as cabc
+    mutators = sorted({n for n in set(dir(cabc.MutableMapping)) - set(dir(cabc.Mapping)) if callable(getattr(dict, n, None))} | {n for n in vars(dict) if n.startswith('__i') and n.endswith('__') and n not in ('__init__', '__iter__', '__init_subclass__')})
+    CALLS = {'__setitem__': (2, 3), '__delitem__': (int,), 'pop': (int,), 'popitem': (), 'clear': (), 'update': ({2: 3},), 'setdefault': (2, 3), '__ior__': ({2: 3},)}
+    for name in mutators:
+        overridden = getattr(FD, name, None) is not getattr(dict, name, None)
+        d = FD({int: str}); before = (dict(d), hash(d)); how = 'not called'
+        try: getattr(d, name)(*CALLS.get(name, ())); how = 'returned'
+        except Exception as e: how = f'raised {type(e).__name__}'
+        same = (dict(d), hash(d)) == before
+        rep.add(f'C17.frozendict.frame.immutable_after_init.{name}', 'proved' if (overridden and same) else 'refuted', backend='structural',
+                where=f'dict.{name} ' + ('is overridden' if overridden else 'is INHERITED from dict (mutates in place)') + f'; calling it on FrozenDict({{int: str}}) {how} and left the items ' + ('unchanged' if same else f'CHANGED to {dict(d)!r} under the same stored hash'),
+                **({} if (overridden and same) else dict(replay=dict(kind='C17', reproduced=not same, detail=f'FrozenDict({{int: str}}).{name}{CALLS.get(name, ())!r} {how}; items now {dict(d)!r}, hash unchanged: {hash(d) == before[1]}'),
+                                                         replay_script=f"sys.path.insert(0, os.environ.get('VERIF_REPO', '/repo'))\nfrom beartype import FrozenDict\nd = FrozenDict({{int: str}}); h = hash(d)\ntry: d.{name}(*{CALLS.get(name, ())!r})\nexcept Exception as e: print('raised', type(e).__name__)\nprint(dict(d), hash(d) == h)\nsys.exit(1 if dict(d) != {{int: str}} else 0)\n" if not same else None)))
+    if not mutators: rep.error('C17.frozendict: no mutator names derived')
     # __hash__ returns the stored hash when there is one
     fobj, node, _ = funcmode.load('beartype/_util/kind/maplike/utilmapfrozen.py', 'FrozenDict.__hash__')
     ex = Exec(uni, dict(mod.__dict__), call_model=cm, name='FrozenDict.__hash__'); ex.fields_mode = True; ex.method_names = {'items', 'values', 'keys'}
